@@ -101,6 +101,9 @@ func c18SweepLispValues() []slip.Object {
 		// lists that only look like assoc lists: a plain two element list first; three elements first
 		slip.List{slip.List{s("a"), slip.Fixnum(1)}}, slip.List{slip.List{s("a"), slip.Fixnum(1)}, pair(s("b"), slip.Fixnum(2))},
 		slip.List{slip.List{s("a"), slip.Fixnum(1), slip.Fixnum(2)}}, slip.List{slip.List{s("a")}},
+		// (constructible from Go only) a tail in the middle of a longer list: no pair, its value's Simplify
+		slip.List{slip.List{s("a"), slip.Tail{Value: slip.Fixnum(1)}, slip.Fixnum(2)}},
+		slip.List{slip.Fixnum(0), slip.Tail{Value: y(":false")}, slip.Tail{Value: slip.List{pair(s("k"), slip.Fixnum(1))}}},
 		// an assoc list with a bad item / a bad key: a condition
 		slip.List{pair(s("a"), slip.Fixnum(1)), slip.Fixnum(2)}, slip.List{pair(s("a"), slip.Fixnum(1)), slip.List{s("b")}},
 		slip.List{pair(slip.Fixnum(1), slip.Fixnum(2))}, slip.List{pair(s("a"), slip.Fixnum(1)), pair(nil, slip.Fixnum(2))},
